@@ -22,8 +22,9 @@ two-phase writer acquisition; `shared` = M, a `Mutex`).
 * (4) **T15.8** the non-blocking commits never wait for A and return the changeset iff the lock is not free.
 
 *Partial by nature*: the theorems are about the protocol; that the real locks implement the micro-steps
-under the real scheduler is sampled by the `stress` run; a recorder for replaying real schedules through
-the driver mode `locks` is described in the report.
+under the real scheduler is sampled: by the `stress` run (end-to-end oracles) and by the lock recorder
+(`vharness lockrec`), whose recorded schedules are replayed step by step through the driver mode `locks`
+(`Props/C15_Conformance.lean`: an accepted log is a run of this LTS).
 -/
 namespace Nomt.C15
 open Nomt.Locks2
